@@ -162,13 +162,15 @@ fn name_strategy(class: u8) -> BoxedStrategy<String> {
     let unit: &'static str = match class {
         // incl. the punctuation pairs that differ only in bit 5 like upper / lower case letters do: @ `  [ {  ] }  ^ ~
         0 => "[a-zA-Z0-9 ._+@`\\[\\]{}^~-]",
-        1 => "[一-鿿ぁ-ん0-9a-z ._]",
+        1 => "[一-鿿ぁ-ん丁-乚0-9a-z ._]",
         _ => "[a-zA-Zà-öø-ÿßΑ-Ωα-ω ._]",
     };
     let lens = prop_oneof![
         4 => 1usize..=12,
         3 => prop::sample::select(vec![12usize, 13, 14, 25, 26, 27, 38, 39, 40, 51, 52, 53, 64, 65, 66, 129, 130, 131]),
         3 => 244usize..=258,
+        // refused lengths: beyond the 260 units the fixed long-name buffer holds
+        1 => 259usize..=300,
         1 => 60usize..=200,
     ];
     (lens, proptest::string::string_regex(&format!("{}{{1,6}}", unit)).unwrap(), any::<u32>())
@@ -217,20 +219,22 @@ fn hist_strategy() -> impl Strategy<Value = FHist> {
                 let n1 = names[a as usize % names.len()].clone();
                 let n2 = names[b as usize % names.len()].clone();
                 let variant = |s: &str, sel: u8| -> String {
-                    match sel % 5 {
+                    match sel % 6 {
                         0 => s.to_string(),
                         1 => s.to_uppercase(),
                         2 => s.to_lowercase(),
                         // NOT a case variant: punctuation with bit 5 flipped must name a different entry in every build
                         3 => s.chars().map(|c| if "@`[{]}^~".contains(c) { (c as u8 ^ 0x20) as char } else { c }).collect(),
+                        // NOT a variant either: every non-ASCII character replaced by the ASCII character its low byte spells
+                        4 => s.chars().map(|c| if (c as u32) > 0x7F && ((c as u32 & 0xFF) as u8).is_ascii_alphanumeric() { (c as u32 & 0xFF) as u8 as char } else { c }).collect(),
                         _ => s.to_string(),
                     }
                 };
                 ops.push(match k % 16 {
                     0..=2 => FOp::CreateFile(n1),
-                    3 => FOp::CreateFile(if class == 0 { variant(&n1, 3) } else { n1 }),
+                    3 => FOp::CreateFile(if class == 0 { variant(&n1, 3) } else { variant(&n1, 4) }),
                     4..=5 => FOp::CreateDir(n1),
-                    6..=7 => FOp::OpenFile(if class == 1 { n1 } else { variant(&n1, b) }),
+                    6..=7 => FOp::OpenFile(if class == 1 { if b % 3 == 0 { variant(&n1, 4) } else { n1 } } else { variant(&n1, b) }),
                     8 => FOp::OpenDir(if class == 1 { n1 } else { variant(&n1, b) }),
                     9..=10 => FOp::Remove(n1),
                     11..=13 => FOp::Rename(n1, n2),
